@@ -1044,7 +1044,7 @@ func TestFoFree(t *testing.T) {
 		wg.Wait()
 
 		// background builds
-		for i := 0; i < 2000 && fo.KeyLocks() != 0; i++ {
+		for i := 0; i < 30000 && fo.KeyLocks() != 0; i++ { // up to 30 s on an overloaded machine; normally microseconds
 			time.Sleep(time.Millisecond)
 		}
 
@@ -1086,7 +1086,7 @@ func TestFoFree(t *testing.T) {
 				ev.C, ev.V, ev.Err, ev.N = "returned", x.v, errTok(x.err), int(*s.nb[k]-before)
 				rr := fo.Backend().Read(context.Background(), km.ByModel[k])
 				ev.Note = rr.Class + ":" + rr.V
-			case <-time.After(3 * time.Second):
+			case <-time.After(60 * time.Second): // generous: a Get that is not blocked returns in microseconds
 				ev.C = "blocked"
 			}
 
